@@ -8,7 +8,7 @@ INFO = {
                   'rtamt.syntax.ast.visitor.abstract_ast_visitor.visitAst / visitSpec', 'rtamt.semantics.abstract_online_interpreter (spec forest update/reset)',
                   'all four interpreters on the resulting spec forest', 'rtamt.pastifier.stl.pastifier on a spec forest'],
     'bounds': {'quick': '11 stateful/stateless sub-spec definitions x 9 referencing formulas (1-3 references, nested sub-specs) x {add_sub_spec, several assertions in one text} '
-                        'x dt offline/online/pastified (N=5) ; constants as operands and as bounds; dense time offline/online n=3 on 5x4 pairs',
+                        'x dt offline/online/pastified (N=5) ; constants as operands and as bounds; dense time offline/online n=3 on 5x4 pairs; constants declared with every type name and a non-integral value',
                'thorough': 'N=7, two-level nesting of sub-specs, more dense pairs, n=4'},
     'outside': 'sub-specifications imported from modules; object-typed variables',
     'assumptions': [],
